@@ -16,7 +16,8 @@ def make_spec(kind, spec_text, vars_, pastify=False, unit=None, consts=(), io=No
         s.declare_const(n, ty, val)
     if io:
         for v, t in io.items():
-            s.set_var_io_type(v, t)
+            for t1 in t.split('>'):          # 'input>output': declared one way first and corrected afterwards; the last call counts
+                s.set_var_io_type(v, t1)
     if unit is not None:
         s.unit = unit
     s.spec = spec_text
